@@ -19,27 +19,38 @@ func manyThenAgain(x *mon.Ctx, class string, early []*world.Case, n int, filler 
 		first[i], _ = check(x, i, c)
 	}
 	bad := 0
-	x.Each(n, func(i int) {
-		c := filler(i)
-		c.Class, c.Param = class, fmt.Sprintf("in-between/%d", i)
-		x.Crumb(i, "verify", c)
-		out := mon.RunVerify(c)
-		if out.Panic != "" || !out.Accepted {
-			if bad < 3 {
-				x.Violation(class, c.Param, "an honest variant is rejected: "+out.Err+out.Panic, "verify", c)
+	// the first cases come back after n/64, n/16, n/4 and n in-between cases (a memory that ages in generations forgets, or
+	// mis-remembers, at a distance that depends on its size)
+	done := 0
+	for _, upto := range []int{n / 64, n / 16, n / 4, n} {
+		if upto <= done {
+			continue
+		}
+		base, cnt := done, upto-done
+		x.Each(cnt, func(k int) {
+			i := base + k
+			c := filler(i)
+			c.Class, c.Param = class, fmt.Sprintf("in-between/%d", i)
+			x.Crumb(i, "verify", c)
+			out := mon.RunVerify(c)
+			if out.Panic != "" || !out.Accepted {
+				if bad < 3 {
+					x.Violation(class, c.Param, "an honest variant is rejected: "+out.Err+out.Panic, "verify", c)
+				}
+				bad++
 			}
-			bad++
-		}
-		x.Note(class, c.Param, out.Accepted, out.Panic != "", true)
-	})
-	x.Each(len(early), func(i int) {
-		c := early[i]
-		x.Crumb(i, "verify", c)
-		out := mon.RunVerify(c)
-		if out.Panic != "" || out.Accepted != first[i].Accepted {
-			x.Violation(class, fmt.Sprintf("again-after-%d-others/%s", n, c.Param), fmt.Sprintf("first verdict accepted=%v (%s); after %d other distinct verifications in this process the same case gets accepted=%v (%s%s)", first[i].Accepted, first[i].Err, n, out.Accepted, out.Err, out.Panic), "verify", c)
-		}
-		x.Note(class, fmt.Sprintf("again/%s", c.Param), out.Accepted, out.Panic != "", true)
-	})
+			x.Note(class, c.Param, out.Accepted, out.Panic != "", true)
+		})
+		done = upto
+		x.Each(len(early), func(i int) {
+			c := early[i]
+			x.Crumb(i, "verify", c)
+			out := mon.RunVerify(c)
+			if out.Panic != "" || out.Accepted != first[i].Accepted {
+				x.Violation(class, fmt.Sprintf("again-after-%d-others/%s", done, c.Param), fmt.Sprintf("first verdict accepted=%v (%s); after %d other distinct verifications in this process the same case gets accepted=%v (%s%s)", first[i].Accepted, first[i].Err, done, out.Accepted, out.Err, out.Panic), "verify", c)
+			}
+			x.Note(class, fmt.Sprintf("again-after-%d/%s", done, c.Param), out.Accepted, out.Panic != "", true)
+		})
+	}
 	x.Require(class, n, 1, n)
 }
